@@ -1838,3 +1838,70 @@ func E2PenReread(c *core.Ctx, r *core.Report) {
 	r.Count("E2.pen-reread-loops", 1)
 	r.Floor("E2.pen-reread-loops", 1)
 }
+
+// E2SerialiseEveryCommand: the textual writers emit something for every command of the path.
+func E2SerialiseEveryCommand(c *core.Ctx, r *core.Report) {
+	r.Rule("E2.serialise-every-command", "Path.String, ToSVG, ToPS and ToPDF turn the command stream into text one record at a time. Every record changes what the text describes — a MoveTo starts a new sub-path even when the pen already is at that point (it decides where a later `z` returns to and whether two pieces are one contour) — so every path through the MoveTo and Close cases of the writers' command switch writes to the output (a drawing command of zero length may be left out: the geometry is the same) (a call of a fmt.Fprint* function or of a Write* method); leaving a case through `break` or `continue` before anything was written drops the record. `M0 0L10 0L10 10M10 10L20 10L20 0z` written without its second M parses back as one contour closed to (0,0)")
+	p := c.MustPkg("")
+	info := p.TypesInfo
+	emits := func(st ast.Stmt) bool {
+		found := false
+		ast.Inspect(st, func(m ast.Node) bool {
+			call, ok := m.(*ast.CallExpr)
+			if !ok {
+				return true
+			}
+			if f := core.CalleeOf(info, call); f != nil {
+				if f.Pkg() != nil && f.Pkg().Path() == "fmt" && strings.HasPrefix(f.Name(), "Fprint") {
+					found = true
+				}
+				if strings.HasPrefix(f.Name(), "Write") {
+					found = true
+				}
+			}
+			return true
+		})
+		return found
+	}
+	n := 0
+	for _, name := range []string{"Path.String", "Path.ToSVG", "Path.ToPS", "Path.ToPDF"} {
+		fd := core.MustFuncDecl(p, name)
+		r.Func("canvas." + name)
+		for _, cc := range cmdSwitchClauses(p, fd) {
+			if len(cc.List) == 0 {
+				continue
+			}
+			// the records that change the structure of the path: a segment of zero length may be
+			// left out (the geometry is the same), a MoveTo or Close never
+			if lbl := core.CaseLabel(info, cc); !strings.Contains(lbl, "MoveToCmd") && !strings.Contains(lbl, "CloseCmd") {
+				continue
+			}
+			n++
+			key := "canvas." + name + "|" + core.CaseLabel(info, cc) + "|every path writes"
+			// a MoveTo to the point a preceding Close returned to may be left out (`zM0 0L5 5` is
+			// `zL5 5` in SVG): a skip under a condition that tests the previous command for CloseCmd
+			afterClose := func(is *ast.IfStmt) bool {
+				found := false
+				ast.Inspect(is.Cond, func(m ast.Node) bool {
+					if id, ok := m.(*ast.Ident); ok && id.Name == "CloseCmd" {
+						found = true
+					}
+					return true
+				})
+				return found
+			}
+			ok, bad := cpsMustHitExcuse(cc.Body, emits, true, afterClose)
+			if ok {
+				r.OK("E2.serialise-every-command", key, c.Pos(cc.Pos()), "")
+			} else {
+				pos := cc.Pos()
+				if bad != nil {
+					pos = bad.Pos()
+				}
+				r.Fail("E2.serialise-every-command", key, c.Pos(pos), "a path through this case leaves it without writing anything: the record is dropped from the text, and what follows is attached to the previous sub-path")
+			}
+		}
+	}
+	r.Count("E2.serialiser-cases", n)
+	r.Floor("E2.serialiser-cases", 7)
+}
